@@ -332,6 +332,15 @@ func serialiseSeq(p *Program, fn *ssa.Function, ms *mutSummary, depth int) []str
 				}
 			}
 		})
+		// …or that stores a part through a keyed helper (storeXMLPart("…", v)): the store is
+		// attributed to this callee by collectPartStores
+		for _, ps := range partStoresCached(p) {
+			if ps.Fn == cal {
+				if _, isConst := ps.Key.isConst(); isConst {
+					direct = true
+				}
+			}
+		}
 		if !direct && depth < 3 {
 			it.sub = serialiseSeq(p, cal, ms, depth+1)
 		}
@@ -644,4 +653,15 @@ func deferredCloseIntoNamedResult(fn *ssa.Function, ret *ssa.Return, ei int, clo
 		})
 	})
 	return found
+}
+
+var partStoreCache = map[*Program][]partStore{}
+
+func partStoresCached(p *Program) []partStore {
+	if v, ok := partStoreCache[p]; ok {
+		return v
+	}
+	v := collectPartStores(p)
+	partStoreCache[p] = v
+	return v
 }
